@@ -7,9 +7,10 @@
 From Coq Require Import List Bool ZArith String Ascii Permutation.
 Import ListNotations.
 Require Import MV.Model.PySem MV.Spec.Types MV.Model.LinkSel MV.Gen.Src MV.Gen.SrcPlan MV.Gen.SrcOpt MV.Gen.SrcName MV.Gen.TypeTables
-  MV.Proofs.SrcTieP.
+  MV.Gen.SrcTfs MV.Gen.SrcFilter MV.Gen.SrcWorker MV.Proofs.SrcTieP.
 Require MV.Model.Orch MV.Model.Naming MV.Model.ChainParser MV.Model.PlannerA MV.Model.PlannerL MV.Model.PyObj.
 Require MV.Model.Options MV.Model.PyObjOpt MV.Spec.OptionsSpec.
+Require MV.Model.PlannerB MV.Model.PyObjR3 MV.Model.FilterAttach MV.Model.FilterPath MV.Model.Worker.
 
 (* ---------------- C18: mloda/core/abstract_plugins/components/index/index.py ---------------- *)
 (* Index.is_a_part_of_ never raises (the t[i] it contains stays in range) and is the model C18_index_prefix is about *)
@@ -321,6 +322,154 @@ Theorem SrcTie_merge_options_full : forall ord, (forall site l k, Options.kmem k
 Proof. exact merge_options_full. Qed.
 Print Assumptions SrcTie_merge_options_full.
 
+(* ---------------- C04 / C05 (round 3): core/step/transform_frame_work_step.py (coq/Gen/SrcTfs.v; objects: Model/PyObjR3.v) ---------------- *)
+(* TransformFrameworkStep.__eq__ on two steps IS the de-duplication key of PlannerB's add_tfs (`new_tfs not in self.tfs_collecion`):
+   from framework, to framework, from feature group AND to feature group - for all pairs of steps *)
+Theorem SrcTie_tfs_eq : forall a b, TransformFrameworkStep_eq a (Some b) = PlannerB.tkey_eqb a b.
+Proof. exact tfs_eq_src. Qed.
+Print Assumptions SrcTie_tfs_eq.
+
+Theorem SrcTie_tfs_eq_other : forall a, TransformFrameworkStep_eq a None = false.
+Proof. exact tfs_eq_other_src. Qed.
+Print Assumptions SrcTie_tfs_eq_other.
+
+Theorem SrcTie_tfs_eq_components : forall a b,
+  TransformFrameworkStep_eq a (Some b) = true <->
+  PyObjR3.tk_from a = PyObjR3.tk_from b /\ PyObjR3.tk_to a = PyObjR3.tk_to b /\
+  PyObjR3.tk_fgrp a = PyObjR3.tk_fgrp b /\ PyObjR3.tk_tgrp a = PyObjR3.tk_tgrp b.
+Proof. exact tfs_eq_components. Qed.
+Print Assumptions SrcTie_tfs_eq_components.
+
+(* __hash__ hashes the tuple of the same four components, so: equal <-> equal hashed tuple *)
+Theorem SrcTie_tfs_hash : forall a,
+  TransformFrameworkStep_hash a = [PyObjR3.tk_from a; PyObjR3.tk_to a; PyObjR3.tk_fgrp a; PyObjR3.tk_tgrp a].
+Proof. exact tfs_hash_src. Qed.
+Print Assumptions SrcTie_tfs_hash.
+
+Theorem SrcTie_tfs_eq_iff_hash : forall a b,
+  TransformFrameworkStep_eq a (Some b) = true <-> TransformFrameworkStep_hash a = TransformFrameworkStep_hash b.
+Proof. exact tfs_eq_iff_hash. Qed.
+Print Assumptions SrcTie_tfs_eq_iff_hash.
+
+(* membership in tfs_collecion as the model has it (PlannerB.kmem, used by tfs_loop / add_tfs) is membership under the source's __eq__ *)
+Theorem SrcTie_tfs_collection_mem : forall k keys,
+  PlannerB.kmem k keys = existsb (fun k' => TransformFrameworkStep_eq k (Some k')) keys.
+Proof. exact tfs_collection_mem_src. Qed.
+Print Assumptions SrcTie_tfs_collection_mem.
+
+(* ---------------- C11 (round 3): prepare/execution_plan.py  add_single_filters_to_feature_set (coq/Gen/SrcFilter.v) ---------------- *)
+(* Which steps get which single filters.  The final call feature_set.add_filters(relevant_filters) is a PARAMETER.  For EVERY
+   callee, every Optional[GlobalFilter] (None / its collection), every group and every feature set: nothing without a filter or
+   with an empty collection; ValueError (feature set untouched) when two gated entries hold different sets; otherwise add_filters
+   receives Model/FilterAttach.attach over the names of ALL features of the set (requested or not) *)
+Theorem SrcTie_add_single_filters_to_feature_set :
+  forall (add_filters : PyObjR3.fset -> list nat -> res unit * PyObjR3.fset) gf fg fs,
+  ExecutionPlan_add_single_filters_to_feature_set add_filters gf fg fs
+  = match gf with
+    | None => (Ok tt, fs)
+    | Some [] => (Ok tt, fs)
+    | Some c => match FilterAttach.attach c fg (map PyObjR3.ft_name (PyObjR3.fs_features fs)) with
+                | None => (Raise ValueError, fs)
+                | Some s => add_filters fs s
+                end
+    end.
+Proof. exact add_single_filters_to_feature_set_src. Qed.
+Print Assumptions SrcTie_add_single_filters_to_feature_set.
+
+(* with FeatureSet.add_filters on a fresh feature set: .filters becomes attach *)
+Theorem SrcTie_add_single_filters_to_feature_set_model : forall c fg feats s,
+  c <> [] -> FilterAttach.attach c fg (map PyObjR3.ft_name feats) = Some s ->
+  ExecutionPlan_add_single_filters_to_feature_set add_filters_model (Some c) fg
+    {| PyObjR3.fs_features := feats; PyObjR3.fs_filters := None |}
+  = (Ok tt, {| PyObjR3.fs_features := feats; PyObjR3.fs_filters := Some s |}).
+Proof. exact add_single_filters_to_feature_set_model. Qed.
+Print Assumptions SrcTie_add_single_filters_to_feature_set_model.
+
+(* the gate of the model: an entry (group, feature name) of the collection is attached iff the step is of that group and SOME
+   feature of its feature set has that name - the membership test of FilterPath.gate (C11path_gate_iff) *)
+Theorem SrcTie_attach_gate_iff : forall fg names k,
+  FilterAttach.attach_gate fg names k = true <-> fst k = fg /\ In (snd k) names.
+Proof. exact attach_gate_iff. Qed.
+Print Assumptions SrcTie_attach_gate_iff.
+
+Theorem SrcTie_attach_gate_filterpath_gate : forall g names m,
+  FilterAttach.attach_gate g names (g, FilterPath.ff_name (FilterPath.m_feature m)) = FilterPath.gate names m.
+Proof. exact attach_gate_filterpath_gate. Qed.
+Print Assumptions SrcTie_attach_gate_filterpath_gate.
+
+(* every gated entry reaches the step: the step's filters are its set; without a gated entry the step gets the empty set *)
+Theorem SrcTie_attach_sound : forall c fg names s e,
+  FilterAttach.attach c fg names = Some s -> In e c -> FilterAttach.attach_gate fg names (fst e) = true -> snd e <> [] ->
+  FilterAttach.set_eqb s (snd e) = true.
+Proof. exact attach_sound. Qed.
+Print Assumptions SrcTie_attach_sound.
+
+Theorem SrcTie_attach_none_gated : forall fg names c,
+  (forall e, In e c -> FilterAttach.attach_gate fg names (fst e) = false) -> FilterAttach.attach c fg names = Some [].
+Proof. exact attach_none_gated. Qed.
+Print Assumptions SrcTie_attach_none_gated.
+
+(* ---------------- C01 / C08 (round 3): runtime/worker/thread_worker.py, core/cfw_manager.py set_error (coq/Gen/SrcWorker.v) ---------------- *)
+Theorem SrcTie_set_error : forall r m x,
+  CfwManager_set_error r m x = (tt, {| PyObjR3.wr_error := true; PyObjR3.wr_msg := m; PyObjR3.wr_exc := x |}).
+Proof. exact set_error_src. Qed.
+Print Assumptions SrcTie_set_error.
+
+(* The worker function (try / except Exception as e: PySem.py_try).  command.execute(...) is a PARAMETER: for EVERY execute -
+   whatever it raises and whatever it does to the step and the register -
+     it completes                 -> command.step_is_done := True, the register as execute left it, the worker returns
+     it raises an Exception       -> set_error on the register, step_is_done NOT written, Exception(msg, exc_info) propagates
+     it raises a non-Exception    -> no register is written, the exception propagates *)
+Theorem SrcTie_thread_worker : forall execute c r a b,
+  Worker_thread_worker execute c r a b
+  = match execute c r a b with
+    | (Ok _, (c', r')) => (Ok tt, PyObjR3.wcmd_set_done c' true, r')
+    | (Raise e, (c', r')) => if py_is_exception e then (Raise OtherError, c', errored r') else (Raise e, c', r')
+    end.
+Proof. exact thread_worker_src. Qed.
+Print Assumptions SrcTie_thread_worker.
+
+(* the two registers the orchestrator polls, as a function of the outcome of execute (an execute that does not write them
+   itself): done is set exactly on success, error exactly on failure *)
+Theorem SrcTie_thread_worker_registers : forall execute c r a b,
+  keeps_registers execute -> raises_exception_only (fst (execute c r a b)) ->
+  let ok := is_ok (fst (execute c r a b)) in
+  let out := Worker_thread_worker execute c r a b in
+  is_ok (fst (fst out)) = ok /\ PyObjR3.wc_done (snd (fst out)) = (PyObjR3.wc_done c || ok)%bool /\
+  PyObjR3.wr_error (snd out) = (PyObjR3.wr_error r || negb ok)%bool.
+Proof. exact thread_worker_registers. Qed.
+Print Assumptions SrcTie_thread_worker_registers.
+
+(* = Model/Orch.v worker_done (the EDone s ok event of a THREADING worker) *)
+Theorem SrcTie_thread_worker_worker_done : forall execute c r a b st s,
+  keeps_registers execute -> raises_exception_only (fst (execute c r a b)) ->
+  PyObjR3.wc_done c = false -> PyObjR3.wr_error r = false ->
+  Orch.mem s (Orch.started_ids st) = true -> Orch.mem s (Orch.done st) = false -> Orch.mem s (Orch.failed st) = false ->
+  let ok := is_ok (fst (execute c r a b)) in
+  let out := Worker_thread_worker execute c r a b in
+  PyObjR3.wc_done (snd (fst out)) = Orch.mem s (Orch.done (Orch.worker_done st s ok)) /\
+  PyObjR3.wr_error (snd out) = Orch.mem s (Orch.failed (Orch.worker_done st s ok)).
+Proof. exact thread_worker_worker_done. Qed.
+Print Assumptions SrcTie_thread_worker_worker_done.
+
+(* = Model/Worker.v, THREADING: the label the worker takes (WDone on success, WFail on failure) emits the completion event
+   (s, value of the done register); the error register is its negation *)
+Theorem SrcTie_thread_worker_labels : forall execute c r a b (cf : Worker.cfg) (ps : Worker.pst) w s cp,
+  keeps_registers execute -> raises_exception_only (fst (execute c r a b)) ->
+  PyObjR3.wc_done c = false -> PyObjR3.wr_error r = false ->
+  Worker.mp cf = false -> Worker.phase (Worker.ws ps w) = Worker.WRun s ->
+  let ok := is_ok (fst (execute c r a b)) in
+  let out := Worker_thread_worker execute c r a b in
+  Worker.evs_of cf ps (if ok then Worker.WDone w else Worker.WFail w cp) = [(s, PyObjR3.wc_done (snd (fst out)))] /\
+  PyObjR3.wr_error (snd out) = negb (PyObjR3.wc_done (snd (fst out))).
+Proof. exact thread_worker_labels. Qed.
+Print Assumptions SrcTie_thread_worker_labels.
+
+Theorem SrcTie_thread_worker_nonexception : forall execute c r a b c' r',
+  execute c r a b = (Raise NonException, (c', r')) -> Worker_thread_worker execute c r a b = (Raise NonException, c', r').
+Proof. exact thread_worker_nonexception. Qed.
+Print Assumptions SrcTie_thread_worker_nonexception.
+
 (* non-vacuity: the regenerated definitions compute, on both sides of each decision *)
 Example SrcTie_examples :
   Index_is_a_part_of_ ["a"%string] ["a"%string; "b"%string] = Ok true /\
@@ -380,3 +529,25 @@ Example SrcTie_name_examples :
   ComputeFramework_identify_naming_convention (fun _ l => l) ["f"%string] ["x"%string] None = Raise ValueError /\
   ComputeFramework_identify_naming_convention (fun _ l => l) ["f"%string] ["f"%string] (Some "other"%string) = Raise ValueError.
 Proof. vm_compute. repeat split. Qed.
+
+(* round 3: two transform steps that differ only in the consumer group are different keys; the worker on the three outcomes of
+   execute; a filter entry keyed by a NON-requested feature of the step's feature set is attached *)
+Example SrcTie_r3_examples :
+  TransformFrameworkStep_eq (1, 2, 3, 4)%nat (Some (1, 2, 3, 5)%nat) = false /\
+  TransformFrameworkStep_eq (1, 2, 3, 4)%nat (Some (1, 2, 3, 4)%nat) = true /\
+  TransformFrameworkStep_hash (1, 2, 3, 4)%nat <> TransformFrameworkStep_hash (1, 2, 3, 5)%nat /\
+  (let c := {| PyObjR3.wc_sid := 7; PyObjR3.wc_done := false |} in
+   let r := {| PyObjR3.wr_error := false; PyObjR3.wr_msg := py_msg; PyObjR3.wr_exc := py_msg |} in
+   Worker_thread_worker (fun c r _ _ => (Ok tt, (c, r))) c r 0%nat 0%nat = (Ok tt, PyObjR3.wcmd_set_done c true, r) /\
+   Worker_thread_worker (fun c r _ _ => (Raise ValueError, (c, r))) c r 0%nat 0%nat = (Raise OtherError, c, errored r) /\
+   Worker_thread_worker (fun c r _ _ => (Raise NonException, (c, r))) c r 0%nat 0%nat = (Raise NonException, c, r)) /\
+  (let fs := {| PyObjR3.fs_features := [{| PyObjR3.ft_name := "k_id"; PyObjR3.ft_init := false |};
+                                        {| PyObjR3.ft_name := "k_v"; PyObjR3.ft_init := false |}];
+                PyObjR3.fs_filters := None |} in
+   ExecutionPlan_add_single_filters_to_feature_set add_filters_model (Some [((3%nat, "k_id"%string), [9%nat])]) 3%nat fs
+   = (Ok tt, {| PyObjR3.fs_features := PyObjR3.fs_features fs; PyObjR3.fs_filters := Some [9%nat] |}) /\
+   ExecutionPlan_add_single_filters_to_feature_set add_filters_model (Some [((4%nat, "k_id"%string), [9%nat])]) 3%nat fs
+   = (Ok tt, {| PyObjR3.fs_features := PyObjR3.fs_features fs; PyObjR3.fs_filters := Some [] |}) /\
+   fst (ExecutionPlan_add_single_filters_to_feature_set add_filters_model
+          (Some [((3%nat, "k_id"%string), [9%nat]); ((3%nat, "k_v"%string), [8%nat])]) 3%nat fs) = Raise ValueError).
+Proof. vm_compute. repeat split; discriminate. Qed.
